@@ -2,6 +2,7 @@
 Every coercer is verified against the oracle of specs/inputs.py relative to the behaviour its closure denotes."""
 import z3
 from pyvc.values import *
+from pyvc.values import ForallList
 from pyvc.contracts import Contract, Lemma
 from pyvc.symexec import attr0, fun_id, LoopContract, PyRef, PyMapped
 from specs import inputs as SI
@@ -353,6 +354,16 @@ class VariableCoercer(Contract):
                 ('value_is_spec', z3.Implies(tag == 0, cr_value(st, r) == SI.VarVal(d, raw, ic, lc)))]
 
 
+def baked_var_def(d):
+    """class invariant of ExecutableVariableDefinition.__init__: coercer == partial(<variable_coercer closure>, self)"""
+    c = attr0(d, 'coercer')
+    return z3.And(var_def_wf(d), V.is_Fun(c), V.fname(c) == fun_id(SI.K_VARCOERCER), lookup(V.fbound(c), V.Int(0)) == d,
+                  V.is_Fun(SI.def_ic(d)), V.is_Fun(SI.def_lc(d)))
+
+
+AllBakedVarDefs = ForallList('baked_var_def', baked_var_def)
+
+
 class CoerceVariables(Contract):
     """coerce_variables: the coerced map is exactly the spec map; errors non-empty iff some definition refuses, one or more per offender"""
     key = 'tartiflette/coercers/variables.py::coerce_variables'
@@ -366,15 +377,8 @@ class CoerceVariables(Contract):
         return self.A
 
     def pre(self, A, st):
-        return [('definitions', V.is_List(A['executable_variable_definitions'])), ('variables', raw_variables_wf(A['raw_variable_values']))]
+        return [('definitions', z3.And(V.is_List(A['executable_variable_definitions']), AllBakedVarDefs(V.items(A['executable_variable_definitions'])))), ('variables', raw_variables_wf(A['raw_variable_values']))]
 
-    def elem_preds(self, A):
-        # class invariant of ExecutableVariableDefinition.__init__: coercer == partial(<variable_coercer closure>, self)
-        def wf(d):
-            c = attr0(d, 'coercer')
-            return z3.And(var_def_wf(d), V.is_Fun(c), V.fname(c) == fun_id(SI.K_VARCOERCER), lookup(V.fbound(c), V.Int(0)) == d,
-                          V.is_Fun(SI.def_ic(d)), V.is_Fun(SI.def_lc(d)))
-        return [(V.items(A['executable_variable_definitions']), wf)]
 
     def call_model(self, en, st, f, a, kw):
         # executable_variable_definition.coercer(raw, ctx): by the class invariant this is variable_coercer(d, raw, ctx, ic, lc);
